@@ -74,6 +74,10 @@ World == [clients |-> [c \in Clients |-> [auth |-> Reg[c].auth, app |-> Reg[c].a
                                           uris |-> Reg[c].uris, postLogout |-> Reg[c].postLogout, at |-> Reg[c].at,
                                           loginGlob |-> LoginGlob(c), plGlob |-> PLGlob(c), skew |-> Skew(c),
                                           \* IDTokenUserinfoClaimsAssertion: the client wants the user claims in the ID token even when an access token is issued
-                                          assert |-> c \in {"cx", "cn"}]],
+                                          assert |-> c \in {"cx", "cn"},
+                                          \* how the registration spells client_secret_basic: "unset" = the storage names no method at all (the
+                                          \* empty string; OpenID Connect Dynamic Client Registration 2: the default is client_secret_basic) -
+                                          \* a value outside the four constants the library enumerates. Such a client authenticates with its secret.
+                                          method |-> IF c \in {"cd", "cs"} THEN "unset" ELSE "explicit"]],
           users |-> Users, uris |-> URIs]
 =============================================================================
